@@ -224,6 +224,15 @@ func c09ShapeFams() []c09Fam {
 			}
 		}
 	}
+	// ONE long token, then an opener or a cut-off construct as the very last bytes: a rule
+	// for a short fingerprint (number + comment, word + open quote) that re-reads the token
+	for _, p := range []string{"", "0x", "'", "1 ", "@", "1.", "-"} {
+		for _, u := range []string{"1", "a"} {
+			for _, sx := range []string{"/*", " /*", "/*x", "/*!", "--", "#", "(", "'", "\"", "`", "$$", "[", ";", ".", "e", "\\", "/*\x00", "\x00/*"} {
+				out = append(out, c09Fam{"sqli", scaleFam{p, u, sx}})
+			}
+		}
+	}
 	// one long tag or attribute name, then many attributes with a listed name
 	names := []string{"style", "onclick", "onerror", "x"}
 	for _, a := range li.VerifBlacks() {
@@ -329,7 +338,7 @@ func c09ParseCase(c core.Case) (c09Fam, int, bool) {
 func c09() *core.Check {
 	ch := &core.Check{
 		ID: "C09",
-		Rule: "scaling experiment per input family (a hand-written catalogue of every construct repeated / nested / left unterminated, behind 4 SQL prefixes, each detector also on the other's constructs, and every family again with its one-character names / bodies / numbers grown to 8 and 40 characters; a keyword followed by one long token and a long foldable run (25 x 2 x 6), escaped quotes behind double-byte lead bytes, one long tag or attribute name followed by many attributes with each listed name; thorough: plus prefix.(a.b)^n for every ordered pair of atoms and six prefixes): thread CPU time (min of k calls) at n, 4n, 16n bytes. " +
+		Rule: "scaling experiment per input family (a hand-written catalogue of every construct repeated / nested / left unterminated, behind 4 SQL prefixes, each detector also on the other's constructs, and every family again with its one-character names / bodies / numbers grown to 8 and 40 characters; a keyword followed by one long token and a long foldable run (25 x 2 x 6), one long token followed by an opener or cut-off construct as the last bytes (7 x 2 x 18), escaped quotes behind double-byte lead bytes, one long tag or attribute name followed by many attributes with each listed name; thorough: plus prefix.(a.b)^n for every ordered pair of atoms and six prefixes): thread CPU time (min of k calls) at n, 4n, 16n bytes. " +
 			"Violation = growth over the 16x range >= 64 (exponent >= 1.5; linear code measures 13-24, the quadratic scanners 139-360) with t(16n) >= 5 ms, or more than 2 us per input byte, reproduced twice alone in a fresh process with k=7; growth <= 40 is held; in between the family is measured again alone after the parallel phase, and is inconclusive only if it stays in between. Non-trivial = families with a completed three-point measurement; distinct by family.",
 		Assumptions: []string{
 			"thread CPU time of a goroutine locked to its OS thread, minimum of k calls (GC stays enabled at GOGC=400: its assist cost is proportional to allocation, hence to input length)",
